@@ -14,6 +14,7 @@ import (
 	"fmt"
 	"net"
 	"strings"
+	"sync"
 
 	"github.com/q191201771/naza/pkg/nazaerrors"
 
@@ -67,9 +68,14 @@ type ServerCommandSession struct {
 	pubSession *PubSession
 	subSession *SubSession
 
-	describeSeq  string // only for sub session
-	isWebSocket  bool
-	websocketKey string
+	describeSeq string // only for sub session
+
+	// DESCRIBE的回复可能由信令处理协程发出（sdp已经存在），也可能由上层在sdp到来时通过FeedSdp发出，两者可能同时发生，
+	// 只回复一次
+	describeMu       sync.Mutex
+	describeAnswered bool
+	isWebSocket      bool
+	websocketKey     string
 }
 
 func NewServerCommandSession(observer IServerCommandSessionObserver, conn net.Conn, authConf ServerAuthConfig, iswebsocket bool, websocketKey string) *ServerCommandSession {
@@ -336,6 +342,13 @@ func (session *ServerCommandSession) handleDescribe(requestCtx nazahttp.HttpReqM
 }
 
 func (session *ServerCommandSession) feedSdp(rawSdp []byte) error {
+	session.describeMu.Lock()
+	defer session.describeMu.Unlock()
+	if session.describeAnswered {
+		return nil
+	}
+	session.describeAnswered = true
+
 	sdpCtx, _ := sdp.ParseSdp2LogicContext(rawSdp)
 	session.subSession.InitWithSdp(sdpCtx)
 
